@@ -26,7 +26,7 @@ func init() {
 			"node fan-outs of 255/256/257 children (a prefix key followed by every one-byte continuation) x maxSize around 256; thorough adds sets of 5000 generated keys with 40-byte common prefixes. Non-trivial+distinct = hash of (keys, maxSize) with >= 2 keys.",
 		Assumptions: []string{"non-empty strictly ascending key lists, maxSize >= 1"},
 		Flavours:    releaseAnd386,
-		Required: []string{"single-key-list", "maxSize=1", "maxSize>=len", "shard/single-key", "shard/full", "key-equals-common-prefix-of-successors", "split/restart-on-shorter-prefix",
+		Required: []string{"arguments-in-read-only-memory", "single-key-list", "maxSize=1", "maxSize>=len", "shard/single-key", "shard/full", "key-equals-common-prefix-of-successors", "split/restart-on-shorter-prefix",
 			"first-byte-distinct", "bytes/nul", "bytes/>=0x80", "deep-common-prefix", "fan-out/257-children", "fan-out/256-children", "keys>=40000", "keys>2^18", "maxSize>=2^30", "same-buffer-refilled-in-place"},
 		Families: func(c *mon.Config) []mon.Family {
 			fams := []mon.Family{
@@ -63,6 +63,12 @@ func c17Check(w *mon.W, keys []string, maxSize int) bool {
 	w.Op, w.A, w.Obj = "ShardByPrefix", int64(maxSize), nil
 	in := append([]string(nil), keys...)
 	keys, guardK := argStrs(w, keys)
+	if roPickStrs(in) { // the key list - headers and bytes - in memory that cannot be written (ro.go)
+		if v, rel, ok := roOneStrs(w, in); ok {
+			keys = v
+			defer rel()
+		}
+	}
 	L, B := sigbits.ShardByPrefix(keys, int32(maxSize))
 	if overlapI32(L, B) {
 		w.Fail("Shard/the-two-results-share-memory", mon.D{"nkeys": len(in), "maxSize": maxSize, "len_L": len(L), "cap_L": cap(L), "len_B": len(B), "cap_B": cap(B)})
